@@ -1,19 +1,7 @@
 #![allow(dead_code)]
-mod dev;
-mod docq;
-mod engine;
-mod gen;
-mod lspc;
-mod lspcheck;
-mod minimize;
-mod oal;
-mod props;
-mod refsem;
-mod rewrite;
-mod tape;
-mod validate;
 
-use engine::*;
+use oalverif::engine::*;
+use oalverif::{dev, props};
 use std::path::PathBuf;
 
 fn usage() -> ! {
@@ -25,6 +13,22 @@ fn main() {
     let args: Vec<String> = std::env::args().collect();
     if args.len() < 3 {
         usage();
+    }
+    if args[1] == "fuzz-replay" {
+        // fuzz-replay <target> <artifact>: the oracle of a libFuzzer target on one saved input (aborts on failure).
+        let data = std::fs::read(&args[3]).expect("read artifact");
+        oalverif::fuzzing::init();
+        match args[2].as_str() {
+            "frontend" => oalverif::fuzzing::frontend_oracle(&String::from_utf8_lossy(&data)),
+            "typed" => oalverif::fuzzing::typed_oracle(&data),
+            "unify" => oalverif::fuzzing::unify_oracle(&data),
+            other => {
+                eprintln!("unknown target {other}");
+                std::process::exit(2);
+            }
+        }
+        println!("FUZZ-REPLAY-PASS");
+        std::process::exit(0);
     }
     if args[1] == "dev-gen" {
         std::process::exit(dev::dev_gen(&args[2..]));
